@@ -73,7 +73,13 @@ func (v *Vue) Funcs(funcMap FuncMap) *Vue {
 // RenderNodes evaluates and renders HTML nodes with the given data.
 // This is the core rendering function used by all public render methods.
 func (v *Vue) RenderNodes(w io.Writer, nodes []*html.Node, data any) error {
-	dataMap := toMapData(data)
+	// The root scope is written by templates (<template :x="..."> sets x in it),
+	// so it must be a private copy: data may be the caller's own map.
+	passedData := toMapData(data)
+	dataMap := make(map[string]any, len(passedData))
+	for k, v := range passedData {
+		dataMap[k] = v
+	}
 
 	ctx := NewVueContext("", &VueContextOptions{
 		Stack:      NewStackWithData(dataMap, data),
